@@ -14,6 +14,10 @@ FAULT_WITNESSES = [("Faults_w_section.cfg", "unchecked:section"), ("Faults_w_str
 PASSWORDS = {"passwords_": ["userpassword", "ownerpassword"], "encrypted_": [""]}
 
 
+SUBST = [("zero", b"0"), ("neg", b"-1"), ("huge", b"99999999999999999999"), ("name", b"/X"), ("open", b"<<"), ("close", b">>"), ("array", b"["), ("endobj", b"endobj"),
+         ("stream", b"stream"), ("drop", b""), ("double", None), ("ref", b"1 0 R"), ("string", b"(unbalanced"), ("real", b"1e9999")]
+
+
 def _tlc(module, cfg, workers=6, expect=False):
     return vlib.run_tlc(module, cfg, PID, cfg[:-4], workers=workers, timeout=3000, heap="8g", expect_violation=expect, coverage=not expect)
 
@@ -40,6 +44,17 @@ def corpus_cases(thorough):
             step = max(1, len(ends) // k)
             for e in ends[step // 2::step]:
                 out.append({"cls": "corpus-cut:%s@%d" % (name, e), "hex": data[:e].hex(), "password": pws[0], "fam": "corpus-cut"})
+            # one token replaced by a token of another class / dropped / doubled, at evenly spaced places (the fault kinds of Faults.tla
+            # applied to real files: a number becomes zero, negative or huge, a keyword or delimiter appears or disappears)
+            k2 = 48 if thorough else 12
+            step2 = max(1, len(ends) // k2)
+            for n, i in enumerate(range(step2 // 3, len(ends) - 1, step2)):
+                a, b = (ends[i - 1] if i else 0), ends[i]
+                while a < b and data[a] in b" \t\r\n\x0c\x00":
+                    a += 1
+                kind, rep = SUBST[n % len(SUBST)]
+                mutated = data[:a] + (data[a:b] * 2 if rep is None else rep) + data[b:]
+                out.append({"cls": "corpus-subst:%s@%d:%s" % (name, a, kind), "hex": mutated.hex(), "password": pws[0], "fam": "corpus-subst"})
     return out
 
 
@@ -130,7 +145,7 @@ def run(tier, seed):
                    "after every token) and every pair of faults (quick: pairs without cuts; thorough: also pairs with every 4th cut) of the fault points of the layouts classic, "
                    "xrefstm, prev2, encrypted (spec/Faults.tla checks that every reader stage answers ok/err and the pipeline terminates, five missing-guard deviations refuted), "
                    "each opened strict/tolerant x cached/uncached and walked through every read entry point; corpus: the repository's 31 files (encrypted ones with each password), whole "
-                   "and cut at %d token boundaries each; all in child processes with watchdog and address-space cap; failure = panic, stack overflow, abort, allocation failure, "
+                   "cut at %d token boundaries each and with single tokens substituted (zero / negative / huge number, name, delimiters, keywords, dropped, doubled) at evenly spaced places; all in child processes with watchdog and address-space cap; failure = panic, stack overflow, abort, allocation failure, "
                    "no return within 10 s (tokens) / 30 s (files), or more than %d ms + 1 ms per 20 bytes for a file" % (4 if q else 5, 12 if q else 60, SLOW_MS),
            "exhaustive": True, "families": dict(fam, tokens=len(tok_cases), token_files=tok_files), "process_deaths": len(tdeaths) + len(wdeaths),
            "tlc": [{"cfg": syn_cfg, "distinct": syn["distinct"], "wall_s": syn["wall_s"]}] + [{"cfg": c, "distinct": r["distinct"], "wall_s": r["wall_s"]} for c, r in faults],
